@@ -138,8 +138,10 @@ func treeDepthAndFan(pa []int) (depth, fan int) {
 
 func genTreeShape(t *rapid.T, maxNodes int) gen.TreeSpec {
 	n := rapid.OneOf(rapid.IntRange(1, 8), rapid.IntRange(1, 40), rapid.IntRange(1, maxNodes)).Draw(t, "nodes")
+	names := rapid.SampledFrom([][]gen.B{nil, nil, {gen.B("100")}, {gen.B("100"), gen.B("95"), nil, gen.B("A")}, {gen.B("a"), gen.B("b"), gen.B("c"), gen.B("d"), gen.B("e"), gen.B("f"), gen.B("g")}}).Draw(t, "names")
+	dists := rapid.SampledFrom([][]gen.F{nil, nil, {1}, {0.5, 0, -1, 1e-05}}).Draw(t, "dists")
 	return gen.TreeSpec{Parents: gen.DrawShape(t, n), EmptyLeaves: rapid.SampledFrom([]int{0, 0, 0, 1, 2, 3}).Draw(t, "emptyLeaves"),
-		SharedChildren: rapid.SampledFrom([]bool{false, true, false}).Draw(t, "sharedChildren")}
+		SharedChildren: rapid.SampledFrom([]bool{false, true, false}).Draw(t, "sharedChildren"), Names: names, Dists: dists}
 }
 
 func genC19(t *rapid.T, thorough bool) C19Case {
@@ -389,6 +391,12 @@ func exhaustiveC19(thorough bool, emit func(C19Case) bool) {
 				}
 			}
 			if n <= 8 && !emit(C19Case{Tree: gen.TreeSpec{Parents: p, SharedChildren: true}}) {
+				return false
+			}
+			// the same shape with every node labelled "100" (bootstrap values as inner node names
+			// repeat all over real trees), and with two alternating labels and branch lengths
+			if n <= 8 && (!emit(C19Case{Tree: gen.TreeSpec{Parents: p, Names: []gen.B{gen.B("100")}}}) ||
+				!emit(C19Case{Tree: gen.TreeSpec{Parents: p, Names: []gen.B{gen.B("95"), gen.B("100")}, Dists: []gen.F{0.5, 0, -1}}})) {
 				return false
 			}
 			return emit(C19Case{Tree: gen.TreeSpec{Parents: p}})
